@@ -44,7 +44,10 @@ end Fv.Cache.Loader
 
 namespace Fv.Cache.Loader
 
-attribute [local grind] completerOf ownerOf upd_apply
+theorem wakeAll_apply (tok : Nat → Bool) (ws : List Nat) (t : Nat) : wakeAll tok ws t = if t ∈ ws then true else tok t := rfl
+
+attribute [local grind] completerOf ownerOf upd_apply wakeAll_apply
+attribute [local grind →] completer_of_owner
 
 /-- Proves `Inv s'` clause by clause: the six universally quantified clauses by `grind`, the two
 existence clauses by the supplied tactics. -/
@@ -103,14 +106,14 @@ theorem inv_mapRead {s s' : State} {t : Nat} (hi : Inv s) (h : stepMapRead s t =
   unfold stepMapRead at h
   repeat' split at h
   all_goals (simp at h; try subst h)
-  all_goals inv_with (first | mo_old h5 | mo_new h5 s (s.nextTid)) (first | oc_old h8 | oc_new h8 s (s.nextTid))
+  all_goals inv_with (mo_new h5 s (s.nextTid)) (oc_new h8 s (s.nextTid))
 
 theorem inv_pendingCS {s s' : State} {t : Nat} (hi : Inv s) (h : stepPendingCS s t = some s') : Inv s' := by
   obtain ⟨h1, h2, h3, h4, h5, h6, h7, h8⟩ := hi
   unfold stepPendingCS at h
   repeat' split at h
   all_goals (simp at h; try subst h)
-  all_goals inv_with (first | mo_old h5 | mo_new h5 s t) (first | oc_old h8 | oc_new h8 s t)
+  all_goals inv_with (mo_new h5 s t) (oc_new h8 s t)
 
 theorem inv_spawn {s s' : State} {t : Nat} (hi : Inv s) (h : stepSpawn s t = some s') : Inv s' := by
   obtain ⟨h1, h2, h3, h4, h5, h6, h7, h8⟩ := hi
